@@ -52,6 +52,22 @@ def make_inputs(chk, work, rng, n, nfam=None):
             raw["noidx"] = True
             h["ops"].insert(rng.randrange(len(h["ops"]) + 1), raw)
         hs.append(h)
+    # inputs whose blocks go back and forth between their parameter sets (indices 0,1,0 / 1,0,1,0 / 0,2,1,0,2): a block of
+    # set 0 - or one that states no index - after a block of another set
+    for seq in ([0, 1, 0], [1, 0, 1, 0], [0, 2, 1, 0, 2], [2, 0, 0, 1]):
+        h = histgen.gen_history(rng, nops=3, comp="none", out="file", rot=False, sizes=[10000], nbps=3, stats_p=0.3, allow_edit=False)
+        pools = histgen.Pools(rng)
+        tps = (min(histgen.tps_of(b) for b in h["preamble"]["bps"]), max(histgen.tps_of(b) for b in h["preamble"]["bps"]))
+        ops = []
+        for k, i in enumerate(seq):
+            ops += [{"op": "setbp", "i": i}, {"op": "wb"}]           # (an empty write_block re-arms the buffered block)
+            ops += [{"op": "qr", "r": histgen.gen_qr(rng, pools, tps, 1500000000)} for _ in range(1 + k % 2)]
+            if k % 2:
+                ops.append({"op": "aec", "r": histgen.gen_aec(rng, pools)})
+            ops.append({"op": "wb"})
+        h["ops"] = ops
+        h.pop("unwind", None)
+        hs.append(h)
     # a family of files that hold the SAME records under parameter sets differing in exactly one member each
     # (tick rate kept: the records are timed for it); merged pairwise below
     fam_rng = random.Random(rng.random())
